@@ -4,7 +4,7 @@ import hashlib
 import os
 import time
 import z3
-from .sym import fresh, Obj, Node, Int, IntV, concrete_int
+from .sym import fresh, Obj, Node, Int, IntV, concrete_int, EvK
 from .values import *   # noqa
 from .interp import Interp, Ctx, PathEnd, next_decisions, Obligation, strip_doc
 
@@ -389,8 +389,39 @@ def b_deepcopy(interp, argv, kwv, fr):
     raise Undecided('deepcopy of %s' % v.kind)
 
 
+class VSuper(V):
+    kind = 'super'
+
+    def __init__(self, g):
+        self.g = g
+
+
 def b_super(interp, argv, kwv, fr):
+    """super(self.__class__, self): only its __init__ is modelled (trusted networkx contract)"""
+    if len(argv) == 2 and argv[1].kind == 'graph':
+        return VSuper(argv[1].g)
     raise Undecided('super()')
+
+
+def _super_init(interp, recv, argv, kwv):
+    g = recv.g
+    if not getattr(g, 'constructing', False):
+        raise Undecided('super().__init__ outside a constructor')
+    if argv and argv[0].kind != 'none':
+        raise Undecided('graph constructed from data')
+    e = HGraph(g.name, g.directed, g.cls).make_empty(True)
+    for c in g.comp_names():
+        if c in ('ER', 'TKey', 'TVal0', 'Ev', 'SKey', 'SCnt'):
+            continue                # not networkx state: left uninitialised until the subclass assigns it
+        g[c] = e[c]
+    return VNone
+
+
+def b_defaultdict(interp, argv, kwv, fr):
+    if len(argv) == 1 and argv[0].kind == 'type' and argv[0].name == 'int':
+        d = VDictLit([], role='defaultdict-int')
+        return d
+    raise Undecided('defaultdict factory')
 
 
 def b_next(interp, argv, kwv, fr):
@@ -424,8 +455,36 @@ BUILTINS = {
     'isinstance': b_isinstance, 'type': b_type, 'len': b_len, 'range': b_range, 'list': b_list,
     'iter': b_iter, 'int': b_int, 'max': b_max, 'min': b_min, 'sorted': b_sorted, 'sum': b_sum,
     'dict': b_dict, 'super': b_super, 'next': b_next, 'set': b_set, 'zip': b_zip,
-    'enumerate': b_enumerate, 'abs': b_abs,
+    'enumerate': b_enumerate, 'abs': b_abs, 'defaultdict': b_defaultdict,
 }
+
+
+def _ctor_store(self, g, name, v, interp):
+    K = z3.K
+    if name == 'time_to_edge':
+        if not (v.kind == 'dict' and not v.pairs and v.role == 'defaultdict-int'):
+            raise Undecided('time_to_edge must be an empty defaultdict(int)')
+        g['TKey'], g['TVal0'] = K(Int, z3.BoolVal(False)), K(Int, z3.BoolVal(False))
+        g['Ev'] = K(Int, K(EvK, z3.BoolVal(False)))
+        return
+    if name == 'snapshots':
+        if not (v.kind == 'dict' and not v.pairs):
+            raise Undecided('snapshots must start as an empty dict')
+        g['SKey'], g['SCnt'] = K(Int, z3.BoolVal(False)), K(Int, IntV(0))
+        return
+    if name == 'edge_removal':
+        if v.kind != 'bool':
+            raise Undecided('edge_removal must be a bool')
+        g['ER'] = v.z
+        return
+    if name == 'directed':
+        if v.kind != 'bool' or not (z3.is_true(v.z) == g.directed and (z3.is_true(v.z) or z3.is_false(v.z))):
+            raise Undecided('directed flag does not match the class')
+        return
+    raise Undecided('constructor store of %s' % name)
+
+
+Engine.ctor_store = _ctor_store
 
 
 def _call_type(self, interp, name, argv, kwv, fr):
